@@ -238,7 +238,16 @@ def run(ctx):
         ctx.finding("proof:C02", dict(kind="proof", failed=po["failed"], log=po.get("build_log_tail", "")),
                     "property theorems of C02 no longer check: %s" % "; ".join(po["failed"])[:400],
                     no_input=not (stats["disagreements"] or stats["oracle_failures"]))
-    cov = dict(obligations=po["obligations"], discharged=po["discharged"], checker_cmd=po["checker_cmd"],
+    # allocation sequences of the baseline generator (array size arithmetic, initial header bits): theorems over the
+    # regenerated masm model; a break runs the machine leg's native-execution search under this property
+    from . import c01_masm
+    alloc = c01_masm.alloc_obligations(ctx)
+    po["obligations"] += alloc["obligations"]
+    po["discharged"] += alloc["discharged"]
+    po["theorems"] = dict(po["theorems"], **alloc["theorems"])
+    cov = dict(obligations=po["obligations"], discharged=po["discharged"], checker_cmd=po["checker_cmd"] + " (and DoraModel.Props.C13Masm)",
+               masm_alloc=dict(module=alloc["module"], obligations=alloc["obligations"], discharged=alloc["discharged"],
+                               runtime_rules=alloc["runtime_rules"], search=alloc.get("search")),
                trusted_base=po["trusted_base"] + [
                    "agreement and crash-freedom of the two code generators are established only on the explored programs",
                    "classification in checks/c01.py `classify` mirrors Dora.Mini.classify (Lean)",
